@@ -4,7 +4,7 @@ from contracts import fasta as FA
 ID = "C18"
 LEVEL = "other"
 TRUSTED = ["A7 residue literals and ambiguity sets read from fasta.py's source by ast/tokenize (runner/c18.py)"]
-EXPLANATION = "see DESIGN.md C18"
+EXPLANATION = ("Deductive: _guess_type_from_filename, read_fasta (records per '>' header for 0-4 lines), _code_average (equal-weight average for 0-3 residues), Molecule.__init__ (H-form/D-form by substituting labile H[1], cell volume <-> density, masses, match point) and Sequence.__init__ (stop at '*', blanks ignored, one labile structure per letter in order, cell volume and charge are sums with multiplicity) for letter sequences up to 6. Closed: every code of the three tables. Bounded: random sequences (additivity, permutations, prefixes) and FASTA files.")
 
 
 def units(tier):
